@@ -15,13 +15,24 @@ META = {
                   'is the tree itself), copyH_fresh / copyH_frame on an explicit object heap (no object of the copy is reachable from '
                   'anything allocated before; mutating the copy leaves every older object unchanged), compatible_sound_partial (a passing '
                   'check implies every value of the first value set is accepted by the second type), compatible_complete (the check '
-                  'passes on the nested pairings of the statement), table facts of DATATYPES / exported properties by decide.  Models '
-                  'tied to frappy/datatypes.py by a correspondence run on the real classes; Lean monitors judge every observed rebuild, '
-                  'copy (sharing partition, mutation of every object of the copy) and verdict, with a witness search through the real '
-                  'validate for passing verdicts.',
-    'level_note': 'Partial: compatible_sound excludes relative_resolution > 1 on the second type (hypothesis ResLeOne) and a member that is '
-                  'optional in the first struct and mandatory in the second (recorded finding, counterexample compatible_sound_fails '
-                  'proved) and relative_resolution >= 1 (recorded finding, counterexample compatible_sound_fails_resolution proved). '
+                  'passes on the nested pairings of the statement), compatible_self.  Derived classes (TextType, LimitsType, StatusType, at '
+                  'any depth, on either side): compatibleC_as_described (the verdict is the one of the kinds they are described as), '
+                  'compatibleC_complete, compatibleC_sound_partial, compatible_with_own_description (a datatype and the type rebuilt from its '
+                  'description are compatible both ways), copyC_equiv (the copy validates like the original, LimitsType order test included), '
+                  'rebuildC_equiv_partial.  Commands: compatibleCmd_reduces / compatibleCmd_complete.  Users of compatible(): '
+                  'proxy_own_description_silent, proxy_own_command_silent (the proxy check logs nothing against the own description), '
+                  'writable_same_datatype_ok.  Table facts of DATATYPES / exported properties by decide.  Models '
+                  'tied to frappy/datatypes.py, frappy/proxy.py (_check_descriptive_data) and frappy/modules.py (Writable.__init__) by a '
+                  'correspondence run on the real classes; Lean monitors judge every observed rebuild, '
+                  'copy (sharing partition, mutation of every object of the copy) and verdict (datatypes and commands), with a witness '
+                  'search through the real validate for passing verdicts.',
+    'level_note': 'Partial: compatible_sound excludes a struct of the first type with all members optional against a mandatory member '
+                  '(recorded finding, counterexample compatible_sound_fails proved) and relative_resolution >= 1 (recorded finding, '
+                  'counterexample compatible_sound_fails_resolution proved); compatibleC_sound_partial additionally needs that the second '
+                  'type holds no LimitsType (plain tuple against LimitsType: recorded finding, compatibleC_sound_fails_limits proved; '
+                  'LimitsType against LimitsType: needs monotonicity of validate, not proved, judged by the monitors only); '
+                  'rebuildC_equiv_partial excludes LimitsType (its order test is not in the description: recorded finding, '
+                  'rebuildC_equiv_fails_limits proved). '
                   'Trusted: Lean kernel + axioms propext/Classical.choice/Quot.sound; LawfulFloatOps and CompatLaws for binary64 (both '
                   'proved for the exact carrier Rat); scaled limits grid aligned and within the grid-law region (|index| <= 2^31).',
     'trusted': [
@@ -39,12 +50,19 @@ META = {
         'json.dumps / json.loads of the datainfo (floats stay floats, integers stay integers, member order kept)',
         'id()-walk over DataType instances, propertyValues dicts, member dicts / tuples, optional lists, Enum and EnumMember objects: '
         'the heap model copyH = read, copy, build allocates new objects by construction',
+        'Python method resolution for the derived classes (none overrides compatible / export_datatype / __call__ / import_value; '
+        'LimitsType overrides validate and copy, TextType copy): compatibleC / cvalidate / copyC transcribe it, tied by correspondence',
+        'frappy.params.Parameter copies the declared datatype before Writable.__init__ compares value and target (the model applies copyC)',
+        'the proxy check is run on stand-ins for the proxy module and the SecopClient (parameters / commands dicts, a log collecting '
+        'the warnings); the remote datatypes are rebuilt from their description by the real get_datatype',
     ],
     'assumptions': ['generalConfig.lazy_number_validation is False (default)',
                     'scaled integers have grid-aligned limits (quantifier of the property)',
-                    'relative_resolution <= 1 on the second type of a pair (hypothesis ResLeOne of compatible_sound_partial; with '
-                    'relative_resolution=2 the real check is unsound: FloatRange(-10,100) vs FloatRange(5,200), value -1)',
-                    'datainfo given to get_datatype: enum values are JSON integers, scale is a JSON number, optional is a list'],
+                    'relative_resolution < 1 on the second type of a pair (hypothesis ResLeOne of compatible_sound_partial; recorded finding otherwise)',
+                    'datainfo given to get_datatype: enum values are JSON integers, scale is a JSON number, optional is a list',
+                    'the member of a LimitsType is a number kind (FloatRange, IntRange, ScaledInteger); TextType as constructed '
+                    '(minchars 0, not UTF-8)',
+                    'CommandType: argument and result are datatypes of the modelled kinds or None; copy / rebuild of a CommandType itself are not modelled'],
 }
 
 FMAX = sys.float_info.max
@@ -149,6 +167,9 @@ def gen_di(rng, maxdepth, kind=None):
     tree = permute_optional(rng, fix_scaled(rng, gen.gen_tree(rng, maxdepth, kind)))
     if tree['t'] == 'string' and rng.random() < 0.3:
         tree = dict(tree, min=rng.choice([1, 3, 5]), max=gen.UNLIMITED)
+    if rng.random() < 0.25:
+        # derived classes (TextType, LimitsType, StatusType) at any depth
+        tree = plant_variants(rng, tree, 0.5)
     return dicodec.annotate(rng, tree, UNITS, FMTS)
 
 
@@ -206,7 +227,7 @@ def eval_rebuild(case):
     """export -> json round trip -> get_datatype -> export again, probes through both"""
     from frappy.datatypes import get_datatype
     dt = dicodec.di_to_dt(case['tree'])
-    impl = {'built': False, 'datainfo': None, 'datainfo2': None, 'tree2': None, 'probes': [], 'error': None}
+    impl = {'built': False, 'datainfo': None, 'datainfo2': None, 'tree2': None, 'classes': None, 'probes': [], 'error': None}
     ex = _outcome(dt.export_datatype)
     if ex[0] != 'ok':
         impl['error'] = 'export:' + str(ex[1])
@@ -220,6 +241,7 @@ def eval_rebuild(case):
     impl['built'] = True
     try:
         impl['tree2'] = dicodec.dt_to_di(dt2)
+        impl['classes'] = dicodec.skeleton(impl['tree2'])
     except Exception as e:
         impl['error'] = 'tree2:' + type(e).__name__
     ex2 = _outcome(dt2.export_datatype)
@@ -317,7 +339,7 @@ def snapshot(dt):
 
 def eval_copy(case):
     dt = dicodec.di_to_dt(case['tree'])
-    impl = {'built': False, 'datainfo': None, 'datainfo2': None, 'tree2': None, 'probes': [], 'shared': [],
+    impl = {'built': False, 'datainfo': None, 'datainfo2': None, 'tree2': None, 'classes': None, 'probes': [], 'shared': [],
             'before': None, 'after': None, 'mprobes': [], 'error': None}
     ex = _outcome(dt.export_datatype)
     if ex[0] == 'ok':
@@ -330,6 +352,7 @@ def eval_copy(case):
     impl['built'] = True
     try:
         impl['tree2'] = dicodec.dt_to_di(c)
+        impl['classes'] = dicodec.skeleton(impl['tree2'])
     except Exception as e:
         impl['error'] = 'tree2:' + type(e).__name__
     ex2 = _outcome(c.export_datatype)
@@ -543,14 +566,14 @@ def derive(rng, a, mode):
             return rng.choice([{'t': 'tuple', 'elems': [a['elem']]}, gen.gen_leaf(rng, 'blob'),
                                {'t': 'struct', 'members': [['members', a['elem']]], 'optional': [], 'client': False}])
         lo2, hi2 = _limits(rng, a['min'], a['max'], mode, [0, 1, 2, 3, 5, 100], 0, 2 ** 24)
-        return {'t': 'array', 'elem': derive(rng, a['elem'], rng.choice([mode, 'equal', 'wider'])), 'min': int(lo2), 'max': int(hi2)}
+        return {'t': 'array', 'elem': derive_c(rng, a['elem'], rng.choice([mode, 'equal', 'wider'])), 'min': int(lo2), 'max': int(hi2)}
     if t == 'tuple':
         if cross:
             return rng.choice([{'t': 'array', 'elem': a['elems'][0], 'min': 0, 'max': 5},
                                {'t': 'tuple', 'elems': a['elems'] + [a['elems'][-1]]},
                                {'t': 'tuple', 'elems': a['elems'][:-1] or [{'t': 'bool'}]}])
         k = rng.randrange(len(a['elems']))
-        return {'t': 'tuple', 'elems': [derive(rng, e, mode if i == k else rng.choice(['equal', 'wider']))
+        return {'t': 'tuple', 'elems': [derive_c(rng, e, mode if i == k else rng.choice(['equal', 'wider']))
                                         for i, e in enumerate(a['elems'])]}
     if t == 'struct':
         if cross:
@@ -558,7 +581,7 @@ def derive(rng, a, mode):
                                {'t': 'array', 'elem': a['members'][0][1], 'min': 0, 'max': 5}, gen.gen_leaf(rng, 'int')])
         ms = a['members']
         k = rng.randrange(len(ms))
-        members = [[n, derive(rng, m, mode if i == k else rng.choice(['equal', 'wider']))] for i, (n, m) in enumerate(ms)]
+        members = [[n, derive_c(rng, m, mode if i == k else rng.choice(['equal', 'wider']))] for i, (n, m) in enumerate(ms)]
         names = [n for n, _ in members]
         r = rng.random()
         if r < 0.25:
@@ -608,17 +631,211 @@ def _limits(rng, lo, hi, mode, cat, cmin, cmax):
     return a, b
 
 
+# ---------------------------------------------------------------------------------------------
+# derived classes (TextType, LimitsType, StatusType): trees with class marks
+# ---------------------------------------------------------------------------------------------
+NUMERIC = ('double', 'int', 'scaled')
+STATUS_TEXT = {'t': 'string', 'min': 0, 'max': gen.UNLIMITED, 'utf8': False}
+
+
+def limits_of(m):
+    return {'t': 'tuple', 'cls': 'limits', 'elems': [m, m]}
+
+
+def status_of(enum):
+    return {'t': 'tuple', 'cls': 'status', 'elems': [{'t': 'enum', 'members': enum['members']}, dict(STATUS_TEXT)]}
+
+
+def text_of(maxchars):
+    return {'t': 'string', 'cls': 'text', 'min': 0, 'max': maxchars, 'utf8': False}
+
+
+def tag_top(rng, b, p):
+    """a plain node whose shape is the one of a derived class becomes an instance of that class with probability p"""
+    if b.get('cls'):
+        return b
+    t = b['t']
+    if t == 'string' and b['min'] == 0 and not b['utf8'] and rng.random() < p:
+        return dict(b, cls='text')
+    if t == 'tuple' and len(b['elems']) == 2 and rng.random() < p:
+        x, y = b['elems']
+        if x == y and x['t'] in NUMERIC and not x.get('cls'):
+            return dict(b, cls='limits')
+        if x['t'] == 'enum' and y == STATUS_TEXT:
+            return dict(b, cls='status')
+    return b
+
+
+def plant_variants(rng, tree, p):
+    """a plain tree with derived classes planted: number leaves become LimitsType of that leaf, enums a StatusType, strings a
+    TextType (each with probability p), at any depth"""
+    t = tree['t']
+    if t in NUMERIC and rng.random() < p:
+        return limits_of(tree)
+    if t == 'enum' and rng.random() < p:
+        return status_of(tree)
+    if t == 'string' and rng.random() < p:
+        return text_of(tree['max'])
+    if t == 'array':
+        return dict(tree, elem=plant_variants(rng, tree['elem'], p))
+    if t == 'tuple':
+        return tag_top(rng, dict(tree, elems=[plant_variants(rng, e, p) for e in tree['elems']]), p)
+    if t == 'struct':
+        return dict(tree, members=[[k, plant_variants(rng, m, p)] for k, m in tree['members']])
+    return tree
+
+
+def derive_c(rng, a, mode):
+    """`derive` for trees with class marks: the second tree is derived from the kind tree, and wherever a node of it has the shape
+    of a derived class it is an instance of that class or of the plain class (both sides independently)"""
+    cls = a.get('cls')
+    if mode == 'cross' or not cls:
+        return tag_top(rng, derive(rng, {k: v for k, v in a.items() if k != 'cls'}, mode), 0.4 if cls else 0.1)
+    if cls == 'limits':
+        m2 = derive(rng, a['elems'][0], mode)
+        r = rng.random()
+        if r < 0.4 and m2['t'] in NUMERIC:
+            return limits_of(m2)
+        if r < 0.8:
+            return {'t': 'tuple', 'elems': [m2, m2]}
+        return {'t': 'tuple', 'elems': [m2, derive(rng, a['elems'][0], rng.choice(['equal', 'wider']))]}
+    if cls == 'status':
+        e2 = derive(rng, a['elems'][0], mode)
+        if e2['t'] != 'enum':
+            return e2
+        r = rng.random()
+        if r < 0.45:
+            return status_of(e2)
+        txt = dict(STATUS_TEXT) if r < 0.85 else rng.choice([text_of(gen.UNLIMITED), {'t': 'string', 'min': 0, 'max': 5, 'utf8': False},
+                                                               {'t': 'string', 'min': 0, 'max': gen.UNLIMITED, 'utf8': True}])
+        return {'t': 'tuple', 'elems': [e2, txt]}
+    # text
+    return tag_top(rng, derive(rng, {k: v for k, v in a.items() if k != 'cls'}, mode), 0.5)
+
+
+def order_limits(tree, v):
+    """a value of the kind tree made a value of the tree: the pair held at every LimitsType put in order"""
+    t = tree['t']
+    try:
+        if t == 'array':
+            return type(v)(order_limits(tree['elem'], x) for x in v)
+        if t == 'tuple':
+            items = [order_limits(e, x) for e, x in zip(tree['elems'], v)]
+            if tree.get('cls') == 'limits':
+                items = sorted(items)
+            return type(v)(items)
+        if t == 'struct':
+            ms = dict((k, m) for k, m in tree['members'])
+            return {k: order_limits(ms[k], x) if k in ms else x for k, x in v.items()}
+    except TypeError:
+        pass
+    return v
+
+
+def variant_pairs():
+    """systematic configuration class: every derived class against the plain class it is described as and against itself — equal,
+    the second wider, the second narrower, both directions — each also inside an array, a tuple and a struct"""
+    def dbl(lo, hi):
+        return {'t': 'double', 'min': fj(lo), 'max': fj(hi), 'ar': fj(0.0), 'rr': fj(1.2e-7)}
+
+    def integer(lo, hi):
+        return {'t': 'int', 'min': lo, 'max': hi}
+
+    def scaled(klo, khi):
+        return {'t': 'scaled', 'scale': fj(0.5), 'min': fj(klo * 0.5), 'max': fj(khi * 0.5), 'ar': fj(0.5), 'rr': fj(1.2e-7)}
+
+    def enum(*ms):
+        return {'t': 'enum', 'members': [list(m) for m in ms]}
+
+    def string(n, utf8=False):
+        return {'t': 'string', 'min': 0, 'max': n, 'utf8': utf8}
+
+    def plain2(x, y=None):
+        return {'t': 'tuple', 'elems': [x, x if y is None else y]}
+    pairs = []
+    # LimitsType
+    for m, wide, narrow in ((integer(0, 10), integer(-5, 20), integer(0, 5)), (dbl(0.0, 10.0), dbl(-5.0, 20.0), dbl(0.0, 5.0)),
+                            (scaled(0, 20), scaled(-10, 40), scaled(0, 10)), (integer(0, 10), dbl(0.0, 10.0), dbl(1.0, 10.0))):
+        for x in (m, wide, narrow):
+            pairs += [(limits_of(m), limits_of(x)), (limits_of(m), plain2(x)), (plain2(m), limits_of(x)), (plain2(m), plain2(x))]
+        pairs += [(limits_of(m), plain2(m, wide)), (limits_of(m), plain2(narrow, m)), (limits_of(m), {'t': 'tuple', 'elems': [m]}),
+                  (limits_of(m), {'t': 'tuple', 'elems': [m, m, m]}), ({'t': 'tuple', 'elems': [m, m, m]}, limits_of(m)),
+                  (limits_of(m), {'t': 'array', 'elem': m, 'min': 2, 'max': 2}), ({'t': 'array', 'elem': m, 'min': 2, 'max': 2}, limits_of(m)),
+                  (limits_of(m), {'t': 'struct', 'members': [['min', m], ['max', m]], 'optional': [], 'client': False}), (limits_of(m), m)]
+    # StatusType
+    idle, busy, err = ['IDLE', 100], ['BUSY', 300], ['ERROR', 400]
+    for ms, more, fewer in (([idle, busy], [idle, busy, err], [idle]), ([['a', 1], ['x y', 2]], [['a', 1], ['x y', 2], ['b', 3]], [['x y', 2]])):
+        for x in (ms, more, fewer):
+            pairs += [(status_of(enum(*ms)), status_of(enum(*x))), (status_of(enum(*ms)), plain2(enum(*x), dict(STATUS_TEXT))),
+                      (plain2(enum(*ms), dict(STATUS_TEXT)), status_of(enum(*x)))]
+        pairs += [(status_of(enum(*ms)), plain2(enum(*ms), string(5))), (status_of(enum(*ms)), plain2(enum(*ms), string(gen.UNLIMITED, True))),
+                  (status_of(enum(*ms)), plain2(enum(*ms), text_of(gen.UNLIMITED))), (plain2(enum(*ms), string(5)), status_of(enum(*ms))),
+                  (plain2(enum(*ms), string(5, True)), status_of(enum(*ms))), (status_of(enum(*ms)), {'t': 'tuple', 'elems': [enum(*ms)]}),
+                  (status_of(enum(*ms)), {'t': 'array', 'elem': dict(STATUS_TEXT), 'min': 2, 'max': 2}),
+                  (status_of(enum(*ms)), plain2(integer(0, 500), dict(STATUS_TEXT))), (plain2(integer(100, 100), dict(STATUS_TEXT)), status_of(enum(*ms)))]
+    # TextType
+    for n, more, fewer in ((5, 7, 3), (gen.UNLIMITED, gen.UNLIMITED, 255), (0, 1, 0)):
+        for x in (n, more, fewer):
+            pairs += [(text_of(n), text_of(x)), (text_of(n), string(x)), (string(n), text_of(x)), (text_of(n), string(x, True)),
+                      (string(n, True), text_of(x))]
+        pairs += [(text_of(n), {'t': 'blob', 'min': 0, 'max': 255}), ({'t': 'blob', 'min': 0, 'max': 0}, text_of(n)),
+                  (text_of(n), {'t': 'string', 'min': 1, 'max': gen.UNLIMITED, 'utf8': False})]
+    nested = []
+    for i, (a, b) in enumerate(pairs):
+        k = i % 4
+        if k == 1:
+            nested.append(({'t': 'array', 'elem': a, 'min': 0, 'max': 3}, {'t': 'array', 'elem': b, 'min': 0, 'max': 3}))
+        elif k == 2:
+            nested.append(({'t': 'tuple', 'elems': [{'t': 'bool'}, a]}, {'t': 'tuple', 'elems': [{'t': 'bool'}, b]}))
+        elif k == 3:
+            nested.append(({'t': 'struct', 'members': [['a', a]], 'optional': [], 'client': False},
+                           {'t': 'struct', 'members': [['a', b], ['q', {'t': 'bool'}]], 'optional': ['q'], 'client': False}))
+    return pairs + nested
+
+
+def boundary_witnesses(a):
+    """values of the first value set from its limits: at every node the extreme members, for a pair of numbers (max, min) as well
+    as (min, max) — a plain tuple holds both, a LimitsType only the ordered one"""
+    t = a['t']
+    if t == 'int':
+        return [a['min'], a['max']]
+    if t in ('double', 'scaled'):
+        return [_f(a['min']), _f(a['max'])]
+    if t == 'tuple':
+        per = [boundary_witnesses(e) for e in a['elems']]
+        if all(per):
+            out = [tuple(p[0] for p in per), tuple(p[-1] for p in per)]
+            if len(per) == 2:
+                out += [(per[0][-1], per[1][0]), (per[0][0], per[1][-1])]
+            return [order_limits(a, v) for v in out] if a.get('cls') == 'limits' else out
+        return []
+    if t == 'array' and a['max'] >= 1:
+        n = max(a['min'], 1)
+        return [(v,) * n for v in boundary_witnesses(a['elem'])] if n <= 4 else []
+    if t == 'struct':
+        per = [(k, boundary_witnesses(m)) for k, m in a['members']]
+        if all(p for _, p in per):
+            return [{k: p[0] for k, p in per}, {k: p[-1] for k, p in per}]
+    return []
+
+
 def gen_pair(rng, maxdepth):
     r = rng.random()
     kind = rng.choice(gen.LEAF_KINDS + gen.CONTAINER_KINDS) if r < 0.8 else None
     a = fix_scaled(rng, gen.gen_tree(rng, maxdepth if kind in gen.CONTAINER_KINDS or kind is None else 1, kind))
+    variants = rng.random() < 0.3
+    if variants:
+        # derived classes (TextType, LimitsType, StatusType) on either side, at any depth
+        a = plant_variants(rng, a, 0.6)
     r = rng.random()
     if r < 0.12:
         b = fix_scaled(rng, gen.gen_tree(rng, maxdepth))
+        if variants:
+            b = plant_variants(rng, b, 0.5)
         mode = 'random'
     else:
         mode = rng.choice(['wider', 'wider', 'equal', 'narrower', 'shifted', 'cross', 'cross'])
-        b = derive(rng, a, mode)
+        b = derive_c(rng, a, mode)
     return a, b, mode
 
 
@@ -680,14 +897,190 @@ def gen_witnesses(rng, a_plain, n):
     out = []
     for _ in range(n):
         v = gen.gen_valid(rng, a_plain)
+        if v is not None:
+            v = order_limits(a_plain, v)
         if v is not None and dtcodec.encodable(v):
             out.append(v)
     return out
 
 
+# ---------------------------------------------------------------------------------------------
+# users of compatible(): the proxy consistency check, the target-vs-value check of Writable
+# ---------------------------------------------------------------------------------------------
+PROXY_WARNINGS = (('does not exist', 'missing'), ('is read only', 'read-only'), ('is not fully compatible', 'not-fully'),
+                  ('has an incompatible datatype', 'incompatible'))
+
+
+class _Log:
+    handlers = []
+
+    def __init__(self):
+        self.warnings = []
+
+    def warning(self, fmt, *args):
+        self.warnings.append((fmt, args))
+
+    def debug(self, *args):
+        pass
+    info = exception = error = debug
+
+    def getChild(self, *args, **kwds):
+        return self
+
+
+def gen_proxy_case(rng):
+    """parameters of a proxy class with their datatypes, and the remote module: its parameters described by related datatypes
+    (the very same, wider, narrower, of another kind …) which the client rebuilds from the description"""
+    params = []
+    for pname in rng.sample(['value', 'target', 'status', 'target_limits', 'p1', 'mode'], rng.choice([1, 2, 3])):
+        a, b, mode = gen_pair(rng, 2)
+        if rng.random() < 0.5:
+            a = plant_variants(rng, dicodec.strip_cls(a), 0.7)
+            b = derive_c(rng, a, rng.choice(['equal', 'equal', 'wider', 'narrower']))
+        r = rng.random()
+        remote = None if r < 0.12 else {'dt': a if r < 0.4 else b, 'readonly': rng.random() < 0.4}
+        params.append({'name': pname, 'export': rng.random() < 0.85, 'readonly': rng.random() < 0.5, 'dt': a, 'remote': remote})
+    commands = []
+    for cname in rng.sample(['stop', 'go', 'reset'], rng.choice([0, 1, 1, 2])):
+        a, b = gen_cmd_pair(rng)
+        r = rng.random()
+        commands.append({'name': cname, 'dt': a, 'remote': None if r < 0.15 else a if r < 0.45 else b})
+    return {'k': 'proxy', 'params': params, 'commands': commands}
+
+
+def eval_proxy(case):
+    """the real ProxyModule._check_descriptive_data on stand-ins for the proxy module and the client; the remote datatypes are
+    rebuilt from their description as SecopClient does; returns (params as built, warnings per parameter)"""
+    from types import SimpleNamespace
+    from frappy.datatypes import get_datatype
+    from frappy.proxy import ProxyModule
+    params, remote, built = {}, {}, []
+    for p in case['params']:
+        dt = dicodec.di_to_dt(p['dt'])
+        params[p['name']] = SimpleNamespace(export=p['export'], readonly=p['readonly'], datatype=dt)
+        bp = dict(p, dt=dicodec.erase(dicodec.dt_to_di(dt)))
+        if p['remote'] is not None:
+            rdt = get_datatype(jround(dicodec.di_to_dt(p['remote']['dt']).export_datatype()), p['name'])
+            remote[p['name']] = {'datatype': rdt, 'readonly': p['remote']['readonly']}
+            bp['remote'] = {'dt': dicodec.erase(dicodec.dt_to_di(rdt)), 'readonly': p['remote']['readonly']}
+        built.append(bp)
+    cmds, remotecmds, cbuilt = {}, {}, []
+    for c in case.get('commands', []):
+        cmds[c['name']] = SimpleNamespace(datatype=cmd_dt(c['dt']))
+        bc = dict(c, dt=norm_cmd(c['dt']))
+        if c['remote'] is not None:
+            rdt = get_datatype(jround(cmd_dt(c['remote']).export_datatype()), c['name'])
+            remotecmds[c['name']] = {'datatype': rdt}
+            bc['remote'] = {'arg': dicodec.erase(dicodec.dt_to_di(rdt.argument)) if rdt.argument is not None else None,
+                            'res': dicodec.erase(dicodec.dt_to_di(rdt.result)) if rdt.result is not None else None}
+        cbuilt.append(bc)
+    log = _Log()
+    proxy = SimpleNamespace(module='m', log=log, parameters=params, commands=cmds,
+                            _secnode=SimpleNamespace(modules={'m': {'parameters': remote, 'commands': remotecmds}}))
+    crashed = None
+    try:
+        ProxyModule._check_descriptive_data(proxy)   # pylint: disable=protected-access
+    except Exception as e:
+        crashed = type(e).__name__
+    out = {p['name']: [] for p in case['params']}
+    cout = {c['name']: [] for c in case.get('commands', [])}
+    for fmt, args in log.warnings:
+        if fmt.startswith('remote command'):
+            cout[args[1]].append('missing' if 'does not exist' in fmt else 'not-compatible' if 'is not compatible' in fmt else 'unknown:' + fmt)
+        else:
+            kind = [k for text, k in PROXY_WARNINGS if text in fmt]
+            out[args[1]].append(kind[0] if kind else 'unknown:' + fmt)
+    order = [k for _, k in PROXY_WARNINGS]
+    impl = {'params': [[p['name'], sorted(out[p['name']], key=lambda k: order.index(k) if k in order else 9)] for p in case['params']],
+            'commands': [[c['name'], cout[c['name']]] for c in case.get('commands', [])]}
+    if crashed:
+        impl['crashed'] = crashed
+    return {'params': built, 'commands': cbuilt}, impl
+
+
+def eval_writable(case):
+    """a Writable subclass declaring `value` and `target` with the two datatypes, instantiated"""
+    from types import SimpleNamespace
+    from frappy.errors import ConfigError, ProgrammingError
+    from frappy.lib import generalConfig
+    from frappy.modules import Writable
+    from frappy.params import Parameter
+
+    class Dispatcher:
+        def announce_update(self, moduleobj, pobj):
+            pass
+    generalConfig.testinit(omit_unchanged_within=0)
+    try:
+        cls = type('W', (Writable,), {'value': Parameter('', dicodec.di_to_dt(case['value'])),
+                                      'target': Parameter('', dicodec.di_to_dt(case['target']))})
+    except Exception as e:
+        return {'other': 'class:' + type(e).__name__}
+    try:
+        cls('w', _Log(), {'description': 'x'}, SimpleNamespace(dispatcher=Dispatcher(), secnode=None))
+    except (ConfigError, ProgrammingError) as e:
+        text = str(e)
+        if 'the target range extends beyond the value range' in text:
+            return 'ConfigError'
+        if 'the datatypes of target and value are not compatible' in text:
+            return 'ProgrammingError'
+        return {'other': type(e).__name__ + ':' + text[:80]}
+    except Exception as e:
+        return {'other': type(e).__name__}
+    return 'ok'
+
+
+def gen_cmd_pair(rng):
+    """two commands: argument and result of the second derived from those of the first (or dropped / added)"""
+    def opt_tree():
+        if rng.random() < 0.25:
+            return None
+        a, _, _ = gen_pair(rng, 2)
+        return a
+    a = {'arg': opt_tree(), 'res': opt_tree()}
+
+    def rel(t):
+        r = rng.random()
+        if t is None:
+            return None if r < 0.8 else opt_tree()
+        if r < 0.1:
+            return None
+        if r < 0.35:
+            return t
+        return derive_c(rng, t, rng.choice(['wider', 'wider', 'equal', 'narrower', 'narrower', 'shifted', 'cross']))
+    return a, {'arg': rel(a['arg']), 'res': rel(a['res'])}
+
+
+def cmd_dt(c):
+    from frappy.datatypes import CommandType
+    return CommandType(dicodec.di_to_dt(c['arg']) if c['arg'] is not None else None,
+                       dicodec.di_to_dt(c['res']) if c['res'] is not None else None)
+
+
+def norm_cmd(c):
+    return {k: dicodec.erase(dicodec.dt_to_di(dicodec.di_to_dt(c[k]))) if c[k] is not None else None for k in ('arg', 'res')}
+
+
+def eval_cmd(case):
+    a, b = cmd_dt(case['a']), cmd_dt(case['b'])
+    out = _outcome(lambda: a.compatible(b))
+    verdict = 'pass' if out[0] == 'ok' else 'bad' if out[0] == 'bad' else {'other': out[1]}
+
+    def through(dt, ws):
+        res = []
+        for wj in ws:
+            v = dtcodec.json_to_py(wj)
+            res.append({'v': wj, 'acc': dt is not None and _outcome(lambda: dt.validate(v))[0] == 'ok'})
+        return res
+    return {'verdict': verdict, 'wa': through(b.argument, case['wa']), 'wr': through(a.result, case['wr'])}
+
+
+def show_cmd(c):
+    return 'CommandType(%s, %s)' % (show(c['arg']) if c['arg'] is not None else None, show(c['res']) if c['res'] is not None else None)
+
+
 def eval_compat(case):
-    a = dtcodec.tree_to_dt(case['a'])
-    b = dtcodec.tree_to_dt(case['b'])
+    a = dicodec.di_to_dt(case['a'])
+    b = dicodec.di_to_dt(case['b'])
     out = _outcome(lambda: a.compatible(b))
     verdict = 'pass' if out[0] == 'ok' else 'bad' if out[0] == 'bad' else {'other': out[1]}
     ws = []
@@ -737,11 +1130,25 @@ def req_of(case):
     if k == 'get':
         impl = eval_get(case['datainfo'])
         return {'p': 'C03', 'k': 'get', 'json': dtcodec.py_to_json(case['datainfo'])}, impl
+    if k == 'proxy':
+        built, impl = eval_proxy(case)
+        return {'p': 'C03', 'k': 'proxy', 'params': built['params'], 'commands': built['commands']}, impl
+    if k == 'cmdcompat':
+        impl = eval_cmd(case)
+        return {'p': 'C03', 'k': 'cmdcompat', 'a': case['a'], 'b': case['b'], 'impl': impl}, impl
+    if k == 'writable':
+        impl = eval_writable(case)
+        return {'p': 'C03', 'k': 'writable', 'value': case['value'], 'target': case['target']}, impl
     raise ValueError(k)
 
 
 def tree_eq(x, y):
     return json.dumps(x, sort_keys=True) == json.dumps(y, sort_keys=True)
+
+
+def _plain(tree):
+    """the annotated tree without class marks (the `DInfo` of the model has none)"""
+    return dicodec.strip_cls(tree) if isinstance(tree, dict) and 't' in tree else tree
 
 
 def disagreement(case, impl, ans):
@@ -753,27 +1160,46 @@ def disagreement(case, impl, ans):
         if canon_model_json(m['datainfo']) != (impl['datainfo'] if impl['datainfo'] is not None else 'bad'
                                                  if not str(impl['error']).startswith('export:') else {'other': impl['error'][7:]}):
             diffs['datainfo'] = (m['datainfo'], impl['datainfo'] or impl['error'])
-        it2 = impl['tree2'] if impl['built'] else 'bad'
+        it2 = _plain(impl['tree2']) if impl['built'] else 'bad'
         if not tree_eq(m['tree2'], it2) and impl['datainfo'] is not None:
             diffs['tree2'] = (m['tree2'], it2)
         if impl['built'] and canon_model_json(m['datainfo2']) != impl['datainfo2']:
             diffs['datainfo2'] = (m['datainfo2'], impl['datainfo2'])
+        if impl['built'] and impl['classes'] is not None and not tree_eq(m['classes'], impl['classes']):
+            diffs['classes'] = (m['classes'], impl['classes'])
         return diffs or None
     if k == 'copy':
         diffs = {}
-        it2 = impl['tree2'] if impl['built'] else ('bad' if impl['error'] == 'copy:bad' else {'other': str(impl['error'])[5:]})
+        it2 = _plain(impl['tree2']) if impl['built'] else ('bad' if impl['error'] == 'copy:bad' else {'other': str(impl['error'])[5:]})
         if not tree_eq(m['tree2'], it2):
             diffs['tree2'] = (m['tree2'], it2)
+        if impl['built'] and impl['classes'] is not None and not tree_eq(m['classes'], impl['classes']):
+            diffs['classes'] = (m['classes'], impl['classes'])
         if sorted(m['shared']) != impl['shared']:
             diffs['shared'] = (m['shared'], impl['shared'])
         return diffs or None
     if k == 'compat':
+        diffs = {}
         if m != impl['verdict']:
-            return {'verdict': (m, impl['verdict'])}
-        return None
+            diffs['verdict'] = (m, impl['verdict'])
+        # the model of the second type's validate (`cvalidate`: the kinds + the order test of every LimitsType) on the witnesses
+        macc = ans.get('macc')
+        iacc = [w['acc'] for w in impl['witnesses']]
+        if macc is not None and macc != iacc:
+            i = [x != y for x, y in zip(macc, iacc)].index(True)
+            diffs['accepts'] = ({'witness': impl['witnesses'][i]['v'], 'accepted': macc[i]}, {'witness': impl['witnesses'][i]['v'], 'accepted': iacc[i]})
+        return diffs or None
     if k == 'get':
         if not tree_eq(m, impl):
             return {'get': (m, impl)}
+        return None
+    if k in ('proxy', 'writable'):
+        if m != impl:
+            return {k: (m, impl)}
+        return None
+    if k == 'cmdcompat':
+        if m != impl['verdict']:
+            return {'verdict': (m, impl['verdict'])}
         return None
 
 
@@ -808,7 +1234,34 @@ def cap_resolution(b):
     return b
 
 
+def unlimit(a, b):
+    """`b` with every LimitsType that does not meet a LimitsType of `a` turned into the plain tuple it is described as"""
+    if b['t'] == 'array':
+        return dict(b, elem=unlimit(a['elem'] if a and a['t'] == 'array' else None, b['elem']))
+    if b['t'] == 'tuple':
+        ea = a['elems'] if a and a['t'] == 'tuple' else []
+        elems = [unlimit(ea[i] if i < len(ea) else None, e) for i, e in enumerate(b['elems'])]
+        out = dict(b, elems=elems)
+        if b.get('cls') == 'limits' and not (a and a.get('cls') == 'limits'):
+            out = {k: v for k, v in out.items() if k != 'cls'}
+        return out
+    if b['t'] == 'struct':
+        ma = dict((k, m) for k, m in a['members']) if a and a['t'] == 'struct' else {}
+        return dict(b, members=[[k, unlimit(ma.get(k), m)] for k, m in b['members']])
+    return b
+
+
 def signature(clause, case, impl=None):
+    if case['k'] == 'cmdcompat':
+        if clause == 'sound' and impl is not None:
+            # attribution only: a refused argument / result that is one of the recorded findings of the pair it belongs to
+            a, b = case['a'], case['b']
+            for x, y, ws in ((a['arg'], b['arg'], impl['wa']), (b['res'], a['res'], impl['wr'])):
+                if x is not None and y is not None and any(not w['acc'] for w in ws):
+                    sig = signature('sound', {'k': 'compat', 'a': x, 'b': y}, {'witnesses': ws})
+                    if sig.count(':') > 2:
+                        return sig
+        return f'C03:{clause}:command->command'
     if case['k'] == 'compat':
         a, b = case['a'], case['b']
         if clause == 'sound' and impl is not None:
@@ -817,35 +1270,84 @@ def signature(clause, case, impl=None):
             b2 = relax_optional(a, b)
             refused = [w['v'] for w in impl['witnesses'] if not w['acc']]
             if b2 != b and refused:
-                dt2 = dtcodec.tree_to_dt(b2)
+                dt2 = dicodec.di_to_dt(b2)
                 if all(_outcome(lambda: dt2.validate(dtcodec.json_to_py(v)))[0] == 'ok' for v in refused):
                     return 'C03:sound:struct->struct:optional-vs-mandatory'
             # … or does the check refuse once no relative_resolution of the second type exceeds 1?
             b3 = cap_resolution(b)
             if b3 != b and refused:
-                if _outcome(lambda: dtcodec.tree_to_dt(a).compatible(dtcodec.tree_to_dt(b3)))[0] != 'ok':
+                if _outcome(lambda: dicodec.di_to_dt(a).compatible(dicodec.di_to_dt(b3)))[0] != 'ok':
                     return 'C03:sound:double:relative-resolution-not-below-1'
-        return f"C03:{clause}:{a['t']}->{b['t']}"
-    return f"C03:{case['k']}:{clause}:{case['tree']['t']}"
+            # … or is every refused witness accepted once the LimitsType nodes of the second type that do not meet a LimitsType
+            # of the first are plain tuples (the order of a pair is the only thing the second type asks for in addition)?
+            b4 = unlimit(a, b)
+            if b4 != b and refused:
+                dt4 = dicodec.di_to_dt(b4)
+                if all(_outcome(lambda: dt4.validate(dtcodec.json_to_py(v)))[0] == 'ok' for v in refused):
+                    return 'C03:sound:tuple->limits:unordered-pair'
+            # … or two recorded findings at once (all-optional struct and LimitsType in one pair): named after the first that
+            # accounts for a refused witness
+            b5 = unlimit(a, b2)
+            if b5 != b4 and b5 != b2 and refused:
+                dt5, dt2 = dicodec.di_to_dt(b5), dicodec.di_to_dt(b2)
+                if all(_outcome(lambda: dt5.validate(dtcodec.json_to_py(v)))[0] == 'ok' for v in refused):
+                    if any(_outcome(lambda: dt2.validate(dtcodec.json_to_py(v)))[0] == 'ok' for v in refused):
+                        return 'C03:sound:struct->struct:optional-vs-mandatory'
+                    return 'C03:sound:tuple->limits:unordered-pair'
+        return f"C03:{clause}:{dicodec.node_kind(a)}->{dicodec.node_kind(b)}"
+    if case['k'] == 'rebuild' and clause == 'behaviour' and 'limits' in dicodec.classes(case['tree']):
+        # attribution only: do original and rebuilt type agree on every probe once the LimitsType nodes of the original are the
+        # plain tuples they are described as?
+        try:
+            from frappy.datatypes import get_datatype
+            plain = dicodec.di_to_dt(unlimit(None, case['tree']))
+            dt2 = get_datatype(jround(dicodec.di_to_dt(case['tree']).export_datatype()))
+            if all(run_probe(plain, p) == run_probe(dt2, p) for p in case['probes']):
+                return 'C03:rebuild:behaviour:limits-order-not-described'
+        except Exception:
+            pass
+    return f"C03:{case['k']}:{clause}:{dicodec.node_kind(case['tree'])}"
+
+
+def show(tree):
+    """repr of the datatype of a tree, derived classes by their own name (LimitsType / StatusType inherit TupleOf.__repr__)"""
+    t, cls = tree['t'], tree.get('cls')
+    if cls == 'limits':
+        return f"LimitsType({show(tree['elems'][0])})"
+    if cls == 'status':
+        return 'StatusType(%s)' % ', '.join(f'{k}={v}' for k, v in tree['elems'][0]['members'])
+    if t == 'array':
+        return f"ArrayOf({show(tree['elem'])}, {tree['min']}, {tree['max']})"
+    if t == 'tuple':
+        return 'TupleOf(%s)' % ', '.join(show(e) for e in tree['elems'])
+    if t == 'struct':
+        return 'StructOf(%s, optional=%r)' % (', '.join(f'{k}={show(m)}' for k, m in tree['members']), tree['optional'])
+    return repr(dicodec.di_to_dt(tree))
 
 
 def describe(case, impl):
+    if case['k'] == 'cmdcompat':
+        bad = [repr(dtcodec.json_to_py(w['v'])) for w in impl['wa'] + impl['wr'] if not w['acc']][:3]
+        return (f"{show_cmd(case['a'])}.compatible({show_cmd(case['b'])}) -> {json.dumps(impl['verdict'])}; arguments of the first "
+                f"refused by the second / results of the second refused by the first: {bad}")
     if case['k'] == 'compat':
-        a, b = dtcodec.tree_to_dt(case['a']), dtcodec.tree_to_dt(case['b'])
+        a, b = show(case['a']), show(case['b'])
         bad = [repr(dtcodec.json_to_py(w['v'])) for w in impl['witnesses'] if not w['acc']][:3]
-        return f"{a!r}.compatible({b!r}) -> {json.dumps(impl['verdict'])}; values of the first type refused by the second: {bad}"
-    dt = dicodec.di_to_dt(case['tree'])
+        return f"{a}.compatible({b}) -> {json.dumps(impl['verdict'])}; values of the first type refused by the second: {bad}"
+    dt = show(case['tree'])
     if case['k'] == 'rebuild':
         diff = [(json.dumps(p['o'])[:80], json.dumps(p['d'])[:80]) for p in impl['probes'] if p['o'] != p['d']][:2]
-        return (f"{dt!r}: datainfo {json.dumps(impl['datainfo'])[:300]} rebuilt -> "
+        return (f"{dt}: datainfo {json.dumps(impl['datainfo'])[:300]} rebuilt -> "
                 f"{json.dumps(impl['datainfo2'])[:300] if impl['built'] else impl['error']}; differing probes {diff}")
     diff = [(json.dumps(p['o'])[:80], json.dumps(p['d'])[:80]) for p in impl['probes'] if p['o'] != p['d']][:2]
-    return (f"{dt!r}.copy(): tree {json.dumps(impl['tree2'])[:300] if impl['built'] else impl['error']}; shared {impl['shared']}; "
+    return (f"{dt}.copy(): tree {json.dumps(impl['tree2'])[:300] if impl['built'] else impl['error']}; shared {impl['shared']}; "
             f"original changed by mutating the copy: {impl['before'] != impl['after']}; differing probes {diff}")
 
 
 def shrink(ctx, case, clause):
     """descend into the tree / pair while a smaller case fails the same clause"""
+    if case['k'] == 'cmdcompat':
+        return case
     for _ in range(8):
         smaller = None
         cands = []
@@ -861,7 +1363,8 @@ def shrink(ctx, case, clause):
                 if sc['k'] == 'compat':
                     import random
                     rng = random.Random(0)
-                    sc['witnesses'] = [dtcodec.py_to_json(v) for v in gen_witnesses(rng, sc['a'], 12) + all_small_ints(sc['a'])]
+                    sc['witnesses'] = [dtcodec.py_to_json(v) for v in gen_witnesses(rng, sc['a'], 12) + all_small_ints(sc['a'])
+                                       + boundary_witnesses(sc['a']) if dtcodec.encodable(v)]
                 else:
                     import random
                     rng = random.Random(0)
@@ -886,7 +1389,7 @@ def run(ctx):
                 'boundary catalogues through both types (import_value / validate(previous)); copy() with the id()-walk of all mutable '
                 'objects, then mutation of every object of the copy; datainfo with unknown / dropped / null / wrong-kind keys through '
                 'get_datatype; ordered pairs derived per kind (wider, equal, narrower, shifted, cross kind, random) through compatible() '
-                'with witnesses of the first value set through the real validate of the second.  Non-trivial = a tree with a container '
+                'with witnesses of the first value set through the real validate of the second; derived classes (TextType, LimitsType, StatusType) planted at any depth in all three streams plus a systematic catalogue of every derived class against its plain class; pairs of commands; the proxy consistency check and Writable.__init__ on related datatypes.  Non-trivial = a tree with a container '
                 'or a non-default property; a pair whose verdict is pass, or which is refused below the root or by a limit')
     rng = ctx.rng
     big = ctx.tier == 'thorough' or ctx.escalated
@@ -925,16 +1428,69 @@ def run(ctx):
     for a, b in int_enum_pairs():
         ws = [dtcodec.py_to_json(v) for v in all_small_ints(a)]
         cases.append(({'k': 'compat', 'a': a, 'b': b, 'witnesses': ws, 'mode': 'int-enum'}, 'pair:int-enum(systematic)'))
+    for a, b in variant_pairs():
+        import random
+        ws = [dtcodec.py_to_json(v) for v in boundary_witnesses(a) + gen_witnesses(random.Random(len(cases)), a, 6) + all_small_ints(a)
+              if dtcodec.encodable(v)]
+        cases.append(({'k': 'compat', 'a': a, 'b': b, 'witnesses': ws, 'mode': 'derived-class'}, 'pair:derived-class(systematic)'))
     for i in range(npairs):
         a, b, mode = gen_pair(rng, 2 if not big else 3)
         try:
-            a = dtcodec.dt_to_tree(dtcodec.tree_to_dt(a))
-            b = dtcodec.dt_to_tree(dtcodec.tree_to_dt(b))
+            a = dicodec.erase(dicodec.dt_to_di(dicodec.di_to_dt(a)))
+            b = dicodec.erase(dicodec.dt_to_di(dicodec.di_to_dt(b)))
         except Exception as e:
             res.count('pair.refused:' + type(e).__name__)
             continue
-        ws = [dtcodec.py_to_json(v) for v in gen_witnesses(rng, a, 8) + all_small_ints(a)]
+        ws = [dtcodec.py_to_json(v) for v in gen_witnesses(rng, a, 8) + all_small_ints(a) + boundary_witnesses(a)[:4]
+              if dtcodec.encodable(v)]
         cases.append(({'k': 'compat', 'a': a, 'b': b, 'witnesses': ws, 'mode': mode}, 'pair:' + mode))
+
+    for i in range(ctx.budget(500, 8000)):
+        a, b = gen_cmd_pair(rng)
+        try:
+            a, b = norm_cmd(a), norm_cmd(b)
+        except Exception as e:
+            res.count('pair.refused:' + type(e).__name__)
+            continue
+        wa = [dtcodec.py_to_json(v) for v in gen_witnesses(rng, a['arg'], 6) + boundary_witnesses(a['arg'])[:4]
+              if dtcodec.encodable(v)] if a['arg'] is not None else []
+        wr = [dtcodec.py_to_json(v) for v in gen_witnesses(rng, b['res'], 6) + boundary_witnesses(b['res'])[:4]
+              if dtcodec.encodable(v)] if b['res'] is not None else []
+        cases.append(({'k': 'cmdcompat', 'a': a, 'b': b, 'wa': wa, 'wr': wr}, 'command'))
+    for i in range(ctx.budget(400, 6000)):
+        c = gen_proxy_case(rng)
+        try:
+            for p_ in c['params']:
+                dicodec.di_to_dt(p_['dt'])
+                if p_['remote'] is not None:
+                    dicodec.di_to_dt(p_['remote']['dt'])
+            for c_ in c['commands']:
+                norm_cmd(c_['dt'])
+                if c_['remote'] is not None:
+                    norm_cmd(c_['remote'])
+        except Exception as e:
+            res.count('pair.refused:' + type(e).__name__)
+            continue
+        cases.append((c, 'proxy'))
+    for a, b in variant_pairs():
+        # every derived class as `value` against the plain class as `target` and the other way round, nested and not
+        cases.append(({'k': 'writable', 'value': b, 'target': a, 'mode': 'derived-class'}, 'writable:derived-class(systematic)'))
+    for i in range(ctx.budget(250, 4000)):
+        a, b, mode = gen_pair(rng, 2)
+        if rng.random() < 0.3:
+            a = plant_variants(rng, dicodec.strip_cls(a), 0.7)
+            b = derive_c(rng, a, rng.choice(['equal', 'wider', 'narrower', 'shifted']))
+        if rng.random() < 0.3:
+            b = a
+        elif rng.random() < 0.5:
+            a, b = b, a
+        try:
+            a = dicodec.erase(dicodec.dt_to_di(dicodec.di_to_dt(a)))
+            b = dicodec.erase(dicodec.dt_to_di(dicodec.di_to_dt(b)))
+        except Exception as e:
+            res.count('pair.refused:' + type(e).__name__)
+            continue
+        cases.append(({'k': 'writable', 'value': b, 'target': a, 'mode': mode}, 'writable'))
 
     CH = 20000
     shrunk = 0
@@ -956,6 +1512,8 @@ def run(ctx):
                 res.traces += 1
                 v = impl['verdict'] if isinstance(impl['verdict'], str) else 'other'
                 res.count(f"pair.{c['a']['t']}->{c['b']['t']}")
+                ca, cb = dicodec.classes(c['a']), dicodec.classes(c['b'])
+                res.count('pair.classes=' + ('plain' if not ca and not cb else '+'.join(ca or ['plain']) + '->' + '+'.join(cb or ['plain'])))
                 res.count('verdict=' + v)
                 res.count('nested=' + str(ans['nested']).lower() + ',verdict=' + v)
                 if v == 'pass':
@@ -972,6 +1530,7 @@ def run(ctx):
             elif k in ('rebuild', 'copy'):
                 res.traces += 1
                 res.count(f'{k}.root=' + c['tree']['t'])
+                res.count(f'{k}.classes=' + ('+'.join(dicodec.classes(c['tree'])) or 'plain'))
                 res.count(f'{k}.built=' + str(impl['built']).lower())
                 for p in impl['probes']:
                     res.count('probe.original=' + ('ok' if isinstance(p['o'], dict) and 'ok' in p['o'] else 'bad' if p['o'] == 'bad' else 'other'))
@@ -979,6 +1538,23 @@ def run(ctx):
                     res.nontriv(c)
                 if len(res.samples) < 3 and c['tree']['t'] == 'struct' and len(json.dumps(c)) < 1500 and stream != 'corpus':
                     res.samples.append({'case': {'k': k, 'tree': c['tree']}, 'datainfo': impl['datainfo']})
+            elif k == 'proxy':
+                for _, ws in impl['params']:
+                    res.count('proxy.warnings=' + ('+'.join(ws) or 'none'))
+                for _, ws in impl['commands']:
+                    res.count('proxy.command-warnings=' + ('+'.join(ws) or 'none'))
+                res.nontriv(c)
+            elif k == 'cmdcompat':
+                res.traces += 1
+                v = impl['verdict'] if isinstance(impl['verdict'], str) else 'other'
+                res.count('command.verdict=' + v)
+                res.count('command.shape=' + ''.join('A' if x['arg'] is not None else '-' for x in (c['a'], c['b'])) +
+                          ''.join('R' if x['res'] is not None else '-' for x in (c['a'], c['b'])))
+                res.count('command.nested=' + str(ans['nested']).lower() + ',verdict=' + v)
+                res.nontriv(c)
+            elif k == 'writable':
+                res.count('writable=' + (impl if isinstance(impl, str) else 'other'))
+                res.nontriv(c)
             else:
                 res.count('get.result=' + ('tree' if isinstance(impl, dict) and 't' in impl else 'bad' if impl == 'bad' else 'other'))
                 if isinstance(impl, dict) and 't' in impl:
@@ -1005,7 +1581,7 @@ def replay(ctx, rp):
     req, impl = req_of(case)
     ans = ctx.driver.batch([req])[0]
     print('case     :', json.dumps({k: v for k, v in case.items() if k not in ('probes', 'witnesses')})[:1500])
-    if case['k'] in ('rebuild', 'copy', 'compat'):
+    if case['k'] in ('rebuild', 'copy', 'compat', 'cmdcompat'):
         print('what     :', describe(case, impl))
     print('impl     :', json.dumps(impl)[:2000])
     print('model    :', json.dumps(ans.get('model'))[:2000])
